@@ -4,7 +4,7 @@ use clap::{ArgAction, Args, CommandFactory, FromArgMatches, Parser, Subcommand, 
 
 // ---------------------------------------------------------------- the derive corpus
 #[derive(ValueEnum, Clone, Copy, Debug, PartialEq)]
-pub enum Mode { Fast, #[value(alias = "s", alias = "slowly")] Slow, #[value(skip)] Internal, #[value(name = "auto-mode")] Auto, #[value(alias = "LAST")] Last }
+pub enum Mode { Fast, #[value(alias = "s", alias = "slowly")] Slow, #[value(skip)] Internal, #[value(name = "auto-mode")] Auto, #[value(alias = "LAST")] Last, #[value(name = "OAuth2", alias = "TOTP")] Oauth }
 
 #[derive(Args, Clone, Debug, PartialEq, Default)]
 pub struct Inner { #[arg(long)] inner_flag: bool, #[arg(long)] inner_opt: Option<String>, #[arg(long)] inner_vec: Vec<String> }
@@ -98,14 +98,14 @@ fn sub_argv(s: &Sub, out: &mut Vec<String>) {
         Sub::Nested(Deep::Twig) => { out.push("nested".into()); out.push("twig".into()); }
     }
 }
-fn mode_name(m: Mode) -> &'static str { match m { Mode::Fast => "fast", Mode::Slow => "slow", Mode::Internal => "internal", Mode::Auto => "auto-mode", Mode::Last => "last" } }
+fn mode_name(m: Mode) -> &'static str { match m { Mode::Fast => "fast", Mode::Slow => "slow", Mode::Internal => "internal", Mode::Auto => "auto-mode", Mode::Last => "last", Mode::Oauth => "OAuth2" } }
 
 fn gen_big(rng: &mut Rng) -> Big {
     Big {
         flag: rng.chance(1, 2), count: rng.below(4) as u8, req: word(rng), opt: if rng.chance(1, 2) { Some(word(rng)) } else { None },
         optopt: match rng.below(3) { 0 => None, 1 => Some(None), _ => Some(Some(word(rng))) }, vec: words(rng, 0, 3),
         optvec: if rng.chance(1, 2) { Some(words(rng, 1, 3)) } else { None },
-        mode: if rng.chance(1, 2) { Some(*rng.pick(&[Mode::Fast, Mode::Slow, Mode::Auto, Mode::Last])) } else { None },
+        mode: if rng.chance(1, 2) { Some(*rng.pick(&[Mode::Fast, Mode::Slow, Mode::Auto, Mode::Last, Mode::Oauth])) } else { None },
         defaulted: if rng.chance(1, 2) { "dflt".into() } else { word(rng) }, delim: words(rng, 0, 3),
         num: if rng.chance(1, 2) { Some(rng.below(2000) as i64 - 1000) } else { None },
         inner: Inner { inner_flag: rng.chance(1, 2), inner_opt: if rng.chance(1, 2) { Some(word(rng)) } else { None }, inner_vec: words(rng, 0, 2) },
@@ -172,17 +172,19 @@ pub fn run(o: &Opts) -> Report {
             let names = std::panic::catch_unwind(|| v.to_possible_value().map(|pv| pv.get_name_and_aliases().map(|s| s.to_string()).collect::<Vec<_>>()));
             match names { Ok(Some(ns)) => (i, ns), _ => { rep.oracle_fail("value-enum-variant-without-possible-value", &format!("Mode variant #{i} {v:?}"), "to_possible_value() is None or panics for a variant listed by value_variants()"); (i, vec![]) } } }).collect();
         // names the DECLARATION gives each listed variant (what must map back), independent of the derive's own tables
-        let declared: [(Mode, &[&str]); 4] = [(Mode::Fast, &["fast"]), (Mode::Slow, &["slow", "s", "slowly"]), (Mode::Auto, &["auto-mode"]), (Mode::Last, &["last", "LAST"])];
+        let declared: [(Mode, &[&str]); 5] = [(Mode::Fast, &["fast"]), (Mode::Slow, &["slow", "s", "slowly"]), (Mode::Auto, &["auto-mode"]), (Mode::Last, &["last", "LAST"]), (Mode::Oauth, &["OAuth2", "TOTP"])];
         for (variant, names) in declared { for nm in names {
             rep.count("value_enum_names");
-            let r = std::panic::catch_unwind(|| Mode::from_str(nm, false));
-            match r { Ok(Ok(v)) if v == variant => {}, other => rep.oracle_fail("value-enum-name-does-not-map-back", &format!("Mode name {nm:?}"), &format!("from_str gave {other:?}, expected {variant:?}")) }
+            for ic in [false, true] {
+                let r = std::panic::catch_unwind(|| Mode::from_str(nm, ic));
+                match r { Ok(Ok(v)) if v == variant => {}, other => rep.oracle_fail("value-enum-name-does-not-map-back", &format!("Mode name {nm:?} ignore_case={ic}"), &format!("from_str gave {other:?}, expected {variant:?}")) }
+            }
             let r2 = std::panic::catch_unwind(|| Big::try_parse_from(["big", "--req", "r", "--mode", nm]).map(|b| b.mode));
             match r2 { Ok(Ok(Some(v))) if v == variant => {}, other => rep.oracle_fail("value-enum-name-does-not-map-back", &format!("--mode {nm}"), &format!("parsed {:?}, expected {variant:?}", other.map(|x| x.map_err(|e| e.kind())))) }
         } }
         let enc = format!("{}{}", variants.len(), variants.iter().map(|(i, ns)| format!(" {i} {}{}", ns.len(), ns.iter().map(|n| format!(" {}", h(n))).collect::<String>())).collect::<String>());
         let mut inputs: Vec<String> = variants.iter().flat_map(|(_, ns)| ns.clone()).collect();
-        inputs.extend(["FAST", "Slow", "internal", "auto", "S", "last", "LAST", "", "fas"].iter().map(|s| s.to_string()));
+        inputs.extend(["FAST", "Slow", "internal", "auto", "S", "last", "LAST", "", "fas", "oauth2", "OAUTH2", "totp", "OAuth"].iter().map(|s| s.to_string()));
         for inp in &inputs { for ic in [false, true] {
             let real = match std::panic::catch_unwind(|| Mode::from_str(inp, ic)) { Ok(Ok(v)) => Mode::value_variants().iter().position(|x| *x == v).unwrap().to_string(), Ok(Err(_)) => "none".into(), Err(_) => "PANIC".into() };
             reqs.push(format!("venum {enc} {} {}", h(inp), b01(ic))); impls.push(real); keys.push(format!("Mode::from_str({inp:?}, {ic})"));
